@@ -106,12 +106,6 @@ func ZZ_C06_headers() {
 	}
 }
 
-func zzLE(x uint64) []byte {
-	b := make([]byte, 8)
-	binary.LittleEndian.PutUint64(b, x)
-	return b
-}
-
 func zzCheckHeaderSubmission(e *zzEnv, m *Manager, da *zzDA, W uint64, n int) {
 	wm := m.pendingHeaders.getLastSubmittedHeaderHeight()
 	zzsym.Assert(wm >= W && wm <= W+uint64(n), "watermark-in-range")
